@@ -173,8 +173,9 @@ func (h *H) pub(qos byte, retain bool) *sim.Call {
 func (h *H) sub(level byte, nfilters int) *sim.Call {
 	h.nTopic++
 	var filters []string
+	pad := strings.Repeat("p", rapid.SampledFrom([]int{0, 0, 10, 40, 120}).Draw(h.rt, "filterPad"))
 	for i := 0; i < nfilters; i++ {
-		filters = append(filters, fmt.Sprintf("f%d/%d/#", h.nTopic, i))
+		filters = append(filters, fmt.Sprintf("f%d/%d/%s#", h.nTopic, i, pad))
 	}
 	req := &Req{Kind: "sub", Filters: filters, Level: level, Quit: "nil"}
 	h.Act("sub level=%d filters=%q", level, filters)
@@ -194,8 +195,9 @@ func (h *H) sub(level byte, nfilters int) *sim.Call {
 func (h *H) unsub(nfilters int) *sim.Call {
 	h.nTopic++
 	var filters []string
+	pad := strings.Repeat("q", rapid.SampledFrom([]int{0, 0, 10, 40, 120}).Draw(h.rt, "filterPad"))
 	for i := 0; i < nfilters; i++ {
-		filters = append(filters, fmt.Sprintf("u%d/%d/+", h.nTopic, i))
+		filters = append(filters, fmt.Sprintf("u%d/%d/%s+", h.nTopic, i, pad))
 	}
 	req := &Req{Kind: "unsub", Filters: filters, Quit: "nil"}
 	h.Act("unsub filters=%q", filters)
@@ -597,4 +599,15 @@ func (h *H) allPersistedDone() bool {
 		}
 	}
 	return true
+}
+
+// fataler is the part of testing.TB / rapid.T the pure checks need.
+type fataler interface {
+	Fatalf(format string, args ...interface{})
+}
+
+// violate fails a case of a check which runs without a sim world. The marker
+// is what the driver turns into a VIOLATION line.
+func violate(t fataler, prop, format string, args ...interface{}) {
+	t.Fatalf("VERIF-VIOLATION property=%s: %s", prop, fmt.Sprintf(format, args...))
 }
